@@ -1,0 +1,403 @@
+//go:build verif
+
+package dastard
+
+// Verification hooks for property C19 (channel identity). Build tag "verif" only.
+// Constructors for card-less / socket-less sources of every type, scripted stand-ins for the parts of
+// Sample that need hardware, accessors for the identity tables, and a helper that runs PrepareRun and
+// a real WriteControl START on such a source. No logic of dastard is changed here.
+
+import (
+	"encoding/json"
+	"fmt"
+	"os"
+	"path/filepath"
+	"time"
+
+	"github.com/usnistgov/dastard/packets"
+	"gonum.org/v1/gonum/mat"
+)
+
+// ---------------------------------------------------------------- Lancero
+
+// VerifC19Lancero is a LanceroSource whose devices have no card behind them.
+type VerifC19Lancero struct {
+	LS      *LanceroSource
+	tmpdir  string
+	oldPath string
+}
+
+// VerifC19NewLancero builds the source object as NewLanceroSource would for the given device numbers.
+func VerifC19NewLancero(devnums []int) (*VerifC19Lancero, error) {
+	ls := new(LanceroSource)
+	ls.name = "Lancero"
+	ls.nsamp = 1
+	ls.devices = make(map[int]*LanceroDevice)
+	ls.channelsPerPixel = 2
+	for _, dnum := range devnums {
+		ld := LanceroDevice{devnum: dnum}
+		ls.devices[dnum] = &ld
+		ls.ncards++
+	}
+	dir, err := os.MkdirTemp("", "verif_c19_cringe")
+	if err != nil {
+		return nil, err
+	}
+	return &VerifC19Lancero{LS: ls, tmpdir: dir, oldPath: cringeGlobalsPath}, nil
+}
+
+// Close removes the scratch cringeGlobals file.
+func (v *VerifC19Lancero) Close() {
+	cringeGlobalsPath = v.oldPath
+	os.RemoveAll(v.tmpdir)
+}
+
+// Configure writes a cringeGlobals.json (NSAMP, seqln = number of rows), calls the real
+// LanceroSource.Configure and remembers its error the way SourceControl.ConfigureLanceroSource does.
+func (v *VerifC19Lancero) Configure(active []int, nsamp, seqln, firstRow, sepCards, sepCols int) error {
+	path := filepath.Join(v.tmpdir, "cringeGlobals.json")
+	js := fmt.Sprintf(`{"SETT":10,"seqln":%d,"lsync":40,"testpattern":0,"propagationdelay":0,"NSAMP":%d,"carddelay":0,"XPT":0}`,
+		seqln, nsamp)
+	if err := os.WriteFile(path, []byte(js), 0o644); err != nil {
+		return err
+	}
+	cringeGlobalsPath = path
+	cfg := &LanceroSourceConfig{FiberMask: 0xffff, ActiveCards: append([]int(nil), active...),
+		FirstRow: firstRow, ChanSepCards: sepCards, ChanSepColumns: sepCols}
+	err := v.LS.Configure(cfg)
+	v.LS.configError = err
+	return err
+}
+
+// SampleDouble stands in for LanceroSource.Sample (which needs a card to learn the number of columns):
+// same refusal after a failed Configure, then the geometry of the i-th active device is set to
+// geom[i] = (ncols, nrows) (devices beyond len(geom) keep theirs), and nchan, the sample rate and the
+// channel-order map are derived exactly as Sample derives them.
+func (v *VerifC19Lancero) SampleDouble(geom [][2]int) error {
+	ls := v.LS
+	if ls.configError != nil {
+		return ls.configError
+	}
+	ls.dataBlockCount = 0
+	ls.nchan = 0
+	for i, device := range ls.active {
+		if i < len(geom) {
+			device.ncols = geom[i][0]
+			device.nrows = geom[i][1]
+		}
+		ls.nchan += device.ncols * device.nrows * 2
+	}
+	ls.sampleRate = 125e6 / float64(40*4)
+	ls.samplePeriod = time.Duration(roundint(1e9 / ls.sampleRate))
+	ls.updateChanOrderMap()
+	return nil
+}
+
+// VerifC19LanceroState is the part of the source object that outlives one run.
+type VerifC19LanceroState struct {
+	SubframeDivisions int
+	MixedRowCounts    bool
+	SepCards, SepCols int
+	FirstRow          int
+	Active            []int // device numbers in activation order
+	ChanOrder         []int // chan2readoutOrder
+}
+
+// State reports it.
+func (v *VerifC19Lancero) State() VerifC19LanceroState {
+	ls := v.LS
+	s := VerifC19LanceroState{SubframeDivisions: ls.subframeDivisions, MixedRowCounts: ls.mixedRowCounts,
+		SepCards: ls.chanSepCards, SepCols: ls.chanSepColumns, FirstRow: ls.firstRowChanNum,
+		ChanOrder: append([]int(nil), ls.chan2readoutOrder...)}
+	for _, d := range ls.active {
+		s.Active = append(s.Active, d.devnum)
+	}
+	return s
+}
+
+// ---------------------------------------------------------------- Abaco
+
+type verifC19Producer struct{ sampled []*packets.Packet }
+
+func (p *verifC19Producer) ReadAllPackets() ([]*packets.Packet, error) { return nil, nil }
+func (p *verifC19Producer) samplePackets(d time.Duration) ([]*packets.Packet, error) {
+	return p.sampled, nil
+}
+func (p *verifC19Producer) start() error        { return nil }
+func (p *verifC19Producer) discardStale() error { return nil }
+func (p *verifC19Producer) stop() error         { return nil }
+
+// VerifC19NewAbaco builds an AbacoSource without probing for ring buffers.
+func VerifC19NewAbaco() *AbacoSource {
+	source := new(AbacoSource)
+	source.name = "Abaco"
+	source.arings = make(map[int]*AbacoRing)
+	source.udpReceivers = make([]*AbacoUDPReceiver, 0)
+	source.producers = make([]PacketProducer, 0)
+	source.groups = make(map[GroupIndex]*AbacoGroup)
+	source.eTrigPackets = make([]*packets.Packet, 0)
+	source.channelsPerPixel = 1
+	source.subframeDivisions = abacoSubframeDivisions
+	return source
+}
+
+// VerifC19Sample installs one scripted producer per batch whose sampled packets announce the given
+// (number of channels, first channel) pairs, and runs the real AbacoSource.Sample.
+func (as *AbacoSource) VerifC19Sample(batches [][][2]int) error {
+	as.producers = make([]PacketProducer, 0)
+	sn := uint32(100)
+	for _, b := range batches {
+		pr := &verifC19Producer{}
+		for _, g := range b {
+			for k := 0; k < 2; k++ {
+				p := packets.NewPacket(10, 20, sn, g[1])
+				if err := p.NewData(make([]int16, g[0]), []int16{int16(g[0])}); err != nil {
+					return fmt.Errorf("verif: cannot build packet: %v", err)
+				}
+				sn++
+				pr.sampled = append(pr.sampled, p)
+			}
+		}
+		as.producers = append(as.producers, pr)
+	}
+	return as.Sample()
+}
+
+// VerifC19GroupCount is len(as.groups).
+func (as *AbacoSource) VerifC19GroupCount() int { return len(as.groups) }
+
+// ---------------------------------------------------------------- Roach, ErroringSource
+
+// VerifC19NewRoach builds a RoachSource and gives it the channel count that Sample would find on
+// devices with the given numbers of channels.
+func VerifC19NewRoach(devNchan []int) *RoachSource {
+	rs, _ := NewRoachSource()
+	rs.nchan = 0
+	for _, n := range devNchan {
+		rs.nchan += n
+	}
+	rs.sampleRate = 10000
+	return rs
+}
+
+// VerifC19SetSampleRate gives a source a sample rate when its stand-in for Sample could not learn one
+// (PrepareRun copies it into every processor; a zero rate makes the headers' time base infinite).
+func (ds *AnySource) VerifC19SetSampleRate(r float64) { ds.sampleRate = r }
+
+// VerifC19SetNchan sets the channel count of a source that has no Configure (ErroringSource).
+func (ds *AnySource) VerifC19SetNchan(n int) { ds.nchan = n }
+
+// ---------------------------------------------------------------- tables as reported
+
+// VerifC19Tables is the identity of every stream as the source reports it: the raw tables plus what
+// the accessors used for status messages return.
+type VerifC19Tables struct {
+	Nchan             int
+	Names             []string // chanNames
+	Numbers           []int
+	RowColCodes       []uint64
+	SubframeOffsets   []int
+	SubframeDivisions int
+	Groups            []GroupIndex // groupKeysSorted, in the order held
+	ChannelsPerPixel  int
+	SourceName        string
+	ChannelNames      []string     // ChannelNames(): content of the CHANNELNAMES message
+	ChanGroups        []GroupIndex // ChanGroups(): content of STATUS.ChanGroups
+}
+
+// VerifC19Tables extracts them (no sorting, no projection).
+func (ds *AnySource) VerifC19Tables() VerifC19Tables {
+	t := VerifC19Tables{Nchan: ds.nchan, Names: append([]string(nil), ds.chanNames...),
+		Numbers: append([]int(nil), ds.chanNumbers...), SubframeOffsets: append([]int(nil), ds.subframeOffsets...),
+		SubframeDivisions: ds.subframeDivisions, Groups: append([]GroupIndex(nil), ds.groupKeysSorted...),
+		ChannelsPerPixel: ds.channelsPerPixel, SourceName: ds.name,
+		ChannelNames: append([]string(nil), ds.ChannelNames()...), ChanGroups: ds.ChanGroups()}
+	for _, c := range ds.rowColCodes {
+		t.RowColCodes = append(t.RowColCodes, uint64(c))
+	}
+	return t
+}
+
+// VerifC19MakeDirectory exposes makeDirectory.
+func VerifC19MakeDirectory(base string) (string, error) { return makeDirectory(base) }
+
+// ---------------------------------------------------------------- files after a START
+
+// VerifC19ChanFiles is what one stream's processor and writers were told.
+type VerifC19ChanFiles struct {
+	DspName   string
+	DspNumber int
+	DspIndex  int
+	LJH22File string // FileName given to the LJH 2.2 writer ("" if none)
+	LJH3File  string
+	HasOFF    bool
+}
+
+// VerifC19File is one file found in the run directory: its name and its header (text header of an
+// LJH 2.2 file up to the end marker, the leading JSON object of LJH3 / OFF files, whole content otherwise).
+type VerifC19File struct {
+	Name string
+	Head string
+}
+
+// VerifC19Files is the outcome of PrepareRun + WriteControl START + one record per stream + STOP.
+type VerifC19Files struct {
+	PrepareRunErr string
+	StartErr      string
+	Panic         string
+	Pattern       string
+	Chans         []VerifC19ChanFiles
+	Files         []VerifC19File // directory listing (sorted by name) after STOP
+}
+
+func verifC19ReadHead(path string, jsonOnly bool) (string, bool) {
+	b, err := os.ReadFile(path)
+	if err != nil {
+		return "", false
+	}
+	s := string(b)
+	if jsonOnly {
+		// JSON object, then newline, then binary: cut at the first "\n}" + newline
+		depth := 0
+		for i := 0; i < len(s); i++ {
+			switch s[i] {
+			case '{':
+				depth++
+			case '}':
+				depth--
+				if depth == 0 {
+					return s[:i+1], true
+				}
+			}
+		}
+		return s, true
+	}
+	const end = "#End of Header\n"
+	for i := 0; i+len(end) <= len(s); i++ {
+		if s[i:i+len(end)] == end {
+			return s[:i+len(end)], true
+		}
+	}
+	return s, true
+}
+
+// VerifC19WriteStart runs AnySource.PrepareRun on a source whose channels are prepared, issues a real
+// WriteControl START (LJH 2.2, LJH3 and, when withOFF, OFF with projectors on every stream) with
+// base path `base`, publishes one record per stream so that every file and header comes into being,
+// issues STOP, and reports names and headers. Holds the package-level publication channels meanwhile.
+func VerifC19WriteStart(ds *AnySource, base string, npre, nsamp int, withOFF bool) (out VerifC19Files) {
+	verifBenchMu.Lock()
+	defer verifBenchMu.Unlock()
+	rec := make(chan []*DataRecord, 1<<12)
+	sum := make(chan []*DataRecord, 1<<12)
+	PubRecordsChan = rec
+	PubSummariesChan = sum
+	stop := make(chan struct{})
+	go func() {
+		for {
+			select {
+			case <-clientMessageChan:
+			case <-rec:
+			case <-sum:
+			case <-stop:
+				return
+			}
+		}
+	}()
+	defer func() {
+		close(stop)
+		PubRecordsChan = nil
+		PubSummariesChan = nil
+	}()
+	defer func() {
+		if e := recover(); e != nil {
+			out.Panic = fmt.Sprint(e)
+		}
+	}()
+	if err := ds.PrepareRun(npre, nsamp); err != nil {
+		out.PrepareRunErr = err.Error()
+		return out
+	}
+	defer func() {
+		ds.numberWrittenTicker.Stop()
+		ds.writingState.externalTriggerTicker.Stop()
+		ds.writingState.dataDropTicker.Stop()
+	}()
+	if withOFF {
+		for ch := range ds.processors {
+			p := mat.NewDense(2, nsamp, nil)
+			q := mat.NewDense(nsamp, 2, nil)
+			for j := 0; j < nsamp; j++ {
+				p.Set(0, j, 1)
+				p.Set(1, j, float64(j))
+				q.Set(j, 0, 1)
+				q.Set(j, 1, float64(j))
+			}
+			if err := ds.ConfigureProjectorsBases(ch, p, q, "verif c19"); err != nil {
+				out.StartErr = "projectors: " + err.Error()
+				return out
+			}
+		}
+	}
+	cfg := &WriteControlConfig{Request: "START", Path: base, WriteLJH22: true, WriteLJH3: true, WriteOFF: withOFF}
+	if err := ds.WriteControl(cfg); err != nil {
+		out.StartErr = err.Error()
+		return out
+	}
+	out.Pattern = ds.writingState.FilenamePattern
+	out.Chans = make([]VerifC19ChanFiles, len(ds.processors))
+	for i, dsp := range ds.processors {
+		c := &out.Chans[i]
+		c.DspName, c.DspNumber, c.DspIndex = dsp.Name, dsp.ChannelNumber, dsp.channelIndex
+		if dsp.DataPublisher.LJH22 != nil {
+			c.LJH22File = dsp.DataPublisher.LJH22.FileName
+		}
+		if dsp.DataPublisher.LJH3 != nil {
+			c.LJH3File = dsp.DataPublisher.LJH3.FileName
+		}
+		c.HasOFF = dsp.DataPublisher.OFF != nil
+		r := &DataRecord{data: make([]RawType, nsamp), trigFrame: FrameIndex(1000 + i), trigTime: time.Unix(1600000000, 0),
+			channelIndex: i, presamples: npre, modelCoefs: []float64{1, 2}, sampPeriod: 1e-4, voltsPerArb: 1}
+		dsp.DataPublisher.PublishData([]*DataRecord{r})
+	}
+	ds.WriteControl(&WriteControlConfig{Request: "STOP"})
+	if out.Pattern != "" {
+		dir := filepath.Dir(out.Pattern)
+		if ents, err := os.ReadDir(dir); err == nil {
+			for _, e := range ents {
+				n := e.Name()
+				jsonOnly := filepath.Ext(n) == ".off" || filepath.Ext(n) == ".ljh3"
+				h, _ := verifC19ReadHead(filepath.Join(dir, n), jsonOnly)
+				if !jsonOnly && filepath.Ext(n) != ".ljh" {
+					h = ""
+				}
+				out.Files = append(out.Files, VerifC19File{Name: n, Head: h})
+			}
+		}
+	}
+	return out
+}
+
+// VerifC19JSONField digs a field out of a JSON header ("" if absent); path components are separated by '/'.
+func VerifC19JSONField(js string, path ...string) string {
+	var v interface{}
+	if err := json.Unmarshal([]byte(js), &v); err != nil {
+		return ""
+	}
+	for _, p := range path {
+		m, ok := v.(map[string]interface{})
+		if !ok {
+			return ""
+		}
+		v = m[p]
+	}
+	switch x := v.(type) {
+	case string:
+		return x
+	case float64:
+		return fmt.Sprintf("%d", int64(x))
+	case nil:
+		return ""
+	}
+	return fmt.Sprint(v)
+}
